@@ -146,3 +146,69 @@ func c07Scopes(spellAt int) {
 	_ = token.NoPos
 }
 
+
+const c07SrcRD = `package d
+
+// @testonly
+// @packageonly w
+type Helper struct{}
+
+// @immutable
+type T struct {
+	F int
+}
+
+// @packageonly w
+func Only() {}
+`
+
+const c07SrcRU = `package u
+
+import "zzmod/d"
+
+func Use(t *d.T) {
+	_ = d.Helper{} //«i1»
+	//«i2»
+	_ = d.Helper{} // USE2
+	_ = d.Helper{} // USE3
+	t.F = 1 //«i3»
+	d.Only() //«i4»
+	t.F = 2 // IMM-OTHER
+}
+`
+
+// ZZC07Rereport: report-time filtering (IMM) and detection-time filtering with once-per-file re-reporting (TONL01, PKGO01):
+// the report moves to the next unsuppressed use; every other diagnostic is unchanged.
+func ZZC07Rereport() {
+	i1 := nd.EnumPad("i1", " @ignore TONL01", " @ignore pkgo", " @ignore ALL", " @ignore IMM", " plain")
+	i2 := nd.EnumPad("i2", " @ignore TONL", " @ignore PKGO01, TONL01", " @ignore CTOR", " plain")
+	i3 := nd.EnumPad("i3", " @ignore IMM01", " @ignore IMM02", " @ignore imm", " plain")
+	i4 := nd.EnumPad("i4", " @ignore PKGO02", " @ignore PKGO03", " @ignore TONL", " plain")
+	holes := []nd.Hole{{"i1", i1}, {"i2", i2}, {"i3", i3}, {"i4", i4}}
+	files := []nd.File{{Pkg: "zzmod/d", Name: "d.go", Src: c07SrcRD}, {Pkg: "zzmod/u", Name: "u.go", Src: c07SrcRU}}
+	prog := nd.LoadProgram(files, holes)
+	cfg := config.Default()
+	rd := Analyze(prog, cfg, "zzmod/d", Facts{}, "imm", "tonl", "pkgo")
+	ru := Analyze(prog, cfg, "zzmod/u", Facts{"zzmod/d": &rd.Ann}, "imm", "tonl", "pkgo")
+
+	s1T := nd.Or(nd.HasPrefix(i1, " @ignore TONL01"), nd.HasPrefix(i1, " @ignore ALL"))
+	s1P := nd.Or(nd.HasPrefix(i1, " @ignore pkgo"), nd.HasPrefix(i1, " @ignore ALL"))
+	s2T := nd.Or(nd.HasPrefix(i2, " @ignore TONL "), nd.HasPrefix(i2, " @ignore PKGO01, TONL01"))
+	s2P := nd.HasPrefix(i2, " @ignore PKGO01, TONL01")
+	s3 := nd.Or(nd.HasPrefix(i3, " @ignore IMM01"), nd.HasPrefix(i3, " @ignore imm"))
+	s4 := nd.HasPrefix(i4, " @ignore PKGO02")
+	fu := "/zz/zzmod/u/u.go"
+	src := c07SrcRU
+	l1, l2, l3 := nd.LineOf(src, "//«i1»"), nd.LineOf(src, "USE2"), nd.LineOf(src, "USE3")
+	CheckExact(ru.Diags, []Expect{
+		{fu, l1, "TONL01", nd.Not(s1T)},
+		{fu, l2, "TONL01", nd.And(s1T, nd.Not(s2T))},
+		{fu, l3, "TONL01", nd.And(s1T, s2T)},
+		{fu, l1, "PKGO01", nd.Not(s1P)},
+		{fu, l2, "PKGO01", nd.And(s1P, nd.Not(s2P))},
+		{fu, l3, "PKGO01", nd.And(s1P, s2P)},
+		{fu, nd.LineOf(src, "//«i3»"), "IMM01", nd.Not(s3)},
+		{fu, nd.LineOf(src, "//«i4»"), "PKGO02", nd.Not(s4)},
+		{fu, nd.LineOf(src, "IMM-OTHER"), "IMM01", true},
+	}, "C07 re-reporting")
+}
